@@ -796,6 +796,8 @@ impl Inner {
                 Err(TryRecvError::Empty) => return Ok(()),
                 Err(TryRecvError::Disconnected) => return EventLoopClientDroppedSnafu.fail(),
             }
+            #[cfg(amiquip_verif)]
+            verif_probe::sched_point(1);
         }
     }
 
